@@ -41,6 +41,21 @@ def gen(rng, tier):
     for u in us:
         for s in scalar_patterns(rng)[:: (4 if tier == "quick" else 1)]:
             cs.append(Case("scalarmult %s %s" % (hx(s), hx(u)), cls="scalarmult/special-point"))
+    # encodings that share all but one byte (or a prefix / suffix) with a special point — the base point 9, 0, 1, p−1, the low-order
+    # points: a comparison with a special value that looks at part of the encoding only (a prefix, everything but the top byte, …)
+    # must not change the result.  Every value of the last byte and of the first byte, and single-byte changes elsewhere.
+    near = []
+    for base in [(9).to_bytes(32, "little"), bytes(32), (1).to_bytes(32, "little"), (P - 1).to_bytes(32, "little")] + list(refs.X_LOW_ORDER)[:7]:
+        for v in (range(256) if base[:1] == b"\x09" or tier == "thorough" else list(range(0, 256, 17)) + [1, 0x7f, 0x80, 0xff]):
+            t = bytearray(base); t[31] = v; near.append(bytes(t))
+        for v in (range(256) if base[:1] == b"\x09" and tier == "thorough" else [0, 1, 8, 9, 10, 0x89, 0xff]):
+            t = bytearray(base); t[0] = v; near.append(bytes(t))
+        for pos in (1, 15, 16, 30):
+            t = bytearray(base); t[pos] ^= 1 << rng.randrange(8); near.append(bytes(t))
+    for u in dict.fromkeys(near):
+        sk = rbytes(rng, 32)
+        cs.append(Case("scalarmult %s %s" % (hx(sk), hx(u)), cls="scalarmult/near-special-point"))
+        cs.append(Case("precalc %s %s" % (hx(u), hx(sk)), cls="precalc/near-special-point"))
     for s in scalar_patterns(rng):
         cs.append(Case("scalarmult_base %s" % hx(s), cls="scalarmult_base/pattern"))
         cs.append(Case("scalarmult %s %s" % (hx(s), hx(rbytes(rng, 32))), cls="scalarmult/scalar-pattern"))
